@@ -22,6 +22,7 @@ def specs_for(pid, tier, colors):
         ks = [1, 2, 3, 4, 5, 6] if tier == "thorough" else [1, 2, 3, 4]
         specs = [f"block:{k}" for k in ks if colors ** k <= 4096]
         specs += ["block:2+block:2"] if colors ** 4 <= 4096 else []
+        specs += ["block:4+block:2", "block:3+block:2"] if colors ** 4 <= 256 else []
         return specs
     ks = [1, 2, 3]
     specs = [f"back:{k}" for k in ks]
